@@ -1,130 +1,217 @@
 (* C14 — SQL transactions: executable model of
      core/stores/sqlx/tx.go      transact / transactOnConn (begin; defer {recover ->
-                                 Rollback; err -> Rollback; else Commit}; fn(ctx, tx))
-     core/stores/sqlx/sqlconn.go commonSqlConn.TransactCtx (breaker around transact),
-                                 Transact (= TransactCtx with a background context)
-     core/stores/sqlc/cachedsql.go CachedConn.Transact/TransactCtx (delegation)
-   as a function from the fault plan to the driver log and the returned error.
+                                 Rollback; err -> Rollback; [fn never returned -> Rollback;]
+                                 else Commit}; fn(ctx, tx)), txSession (the statement
+                                 methods of the transaction's Session), txConn (a Session
+                                 dressed as a SqlConn: Transact = errCantNestTx)
+     core/stores/sqlx/sqlconn.go commonSqlConn.TransactCtx (context check and breaker around
+                                 transact), Transact, NewSqlConn / NewSqlConnFromDB (connProv),
+                                 NewSqlConnFromSession, acceptable / WithAcceptable
+     core/stores/sqlc/cachedsql.go CachedConn.Transact / TransactCtx / WithSession (delegation)
+   as a machine: several transactions ("threads") on long-lived SqlConn objects, a schedule
+   saying which thread performs its next quantum, and a SCRIPTED DRIVER: the outcome of the
+   driver's 1st, 2nd, 3rd ... call is given by a list, whoever makes the call -- and whether the
+   caller's context becomes done while that call is in flight.
    No proofs in this file.
 
    What is abstracted (validated by the correspondence run, harness/cmd/c14):
-   - database/sql between go-zero and the driver: sql.DB.Begin / Tx.ExecContext /
-     Tx.Commit / Tx.Rollback reach the driver once each and hand its error back
-     unchanged; a statement issued with a cancelled context is refused by
-     database/sql before it reaches the driver ([SCtx]);
-   - errors are terms ([err]); fmt.Errorf("... %w", e) is a constructor that records
-     what it wraps;
-   - the circuit breaker's verdict is an input ([ibrk]); its statistics are not
-     modelled (C01 is about the breaker). *)
+   - database/sql between go-zero and the driver: every Begin / ExecContext / QueryContext /
+     Prepare / Stmt.Exec / Commit / Rollback of a live transaction reaches the driver once, on
+     the transaction's own connection, and hands the driver's error back unchanged; a statement
+     issued with a cancelled context, or on a transaction that has already ended, is refused
+     before it reaches the driver (context.Canceled resp. sql.ErrTxDone); a second Commit /
+     Rollback is answered with sql.ErrTxDone without a driver call;
+   - errors are terms; fmt.Errorf("... %w", e) is a constructor that records what it wraps;
+   - the circuit breaker's verdict is an input ([sbrk]); its statistics are C01's business;
+   - which pooled connection serves a Begin is an input ([sconn], as observed). *)
 From Coq Require Import List ZArith Bool.
 Import ListNotations.
 Open Scope Z_scope.
 
-(* ---- the driver log ---------------------------------------------------- *)
+(* ---- the scripted driver and its log ---------------------------------------- *)
+Inductive outcome := OOk | OFail | OPanic.
+
+Inductive skind := KExec | KQuery | KPrepare | KStmtExec.   (* driver entry point of a statement *)
+
 Inductive call :=
 | CBegin
-| CExec (k : Z)     (* k-th statement of the body (0-based) *)
+| CStmt (k : Z) (kd : skind)     (* k-th step of the body (0-based) *)
 | CCommit
 | CRollback.
 
-(* one call received by the driver and whether the driver let it succeed *)
-Definition logent := (call * bool)%type.
+(* one call received by the driver: on whose behalf, on which connection, its answer *)
+Record logent := mkEnt { etid : nat; econn : Z; ecall : call; eout : outcome }.
+
+Definition is_end (c : call) : bool := match c with CCommit | CRollback => true | _ => false end.
+Definition is_stmt (c : call) : bool := match c with CStmt _ _ => true | _ => false end.
+Definition is_commit (c : call) : bool := match c with CCommit => true | _ => false end.
+Definition is_rollback (c : call) : bool := match c with CRollback => true | _ => false end.
+Definition is_begin (c : call) : bool := match c with CBegin => true | _ => false end.
+
+(* the driver's answer to one call: its outcome, and whether the caller's context becomes
+   done WHILE the call is in flight *)
+Record reply := mkReply { rout : outcome; rcancel : bool }.
+
+Definition pop (orc : list reply) : reply * list reply :=
+  match orc with [] => (mkReply OOk false, []) | o :: r => (o, r) end.
+
+(* a scripted panic is honoured by Commit / Rollback only; elsewhere it is a failure *)
+Definition honoured (c : call) (o : outcome) : outcome :=
+  match o with OPanic => if is_end c then OPanic else OFail | _ => o end.
+
+(* the cancellation is not scripted for QueryContext: database/sql's Rows watches the context
+   from a goroutine of its own, what the scan then sees is a race inside database/sql *)
+Definition cancels (c : call) (b : bool) : bool :=
+  match c with CStmt _ KQuery => false | _ => b end.
+
+(* one driver call made for transaction [t] on connection [cn]:
+   outcome, context cancelled meanwhile, log entry, rest of the script *)
+Definition drv (t : nat) (cn : Z) (c : call) (orc : list reply)
+  : outcome * bool * list logent * list reply :=
+  let '(r, orc') := pop orc in
+  let o' := honoured c (rout r) in (o', cancels c (rcancel r), [mkEnt t cn c o'], orc').
 
 (* ---- the body ---------------------------------------------------------- *)
-Inductive sres :=
-| SOk               (* the driver executes the statement *)
-| SFail             (* the driver fails it *)
-| SCtx.             (* its context is already cancelled: database/sql refuses it, the
-                       driver never sees it *)
+Inductive meth := MExec | MQuery | MPrep.   (* Exec* | QueryRow*/QueryRows* | Prepare* + stmt.Exec* *)
+
+Inductive action :=
+| AStmt (m : meth) (withctx : bool)   (* a statement through the Session; the ...Ctx variant with the body's context or not *)
+| ANest                               (* NewSqlConnFromSession(s).Transact / CachedConn.WithSession(s).Transact *)
+| ASelfCommit                         (* s.(interface{ Commit() error }).Commit() *)
+| ASelfRollback
+| ACancel                             (* the caller's context is cancelled *)
+| ANop.                               (* no interaction with this transaction *)
+
 Inductive onfail :=
 | FStop             (* if err != nil { return err } *)
 | FIgnore           (* the body ignores the failure and goes on *)
 | FPanic.           (* the body panics on the failure *)
-Record stmt := mkStmt { sres_of : sres; sonfail : onfail }.
+Record step := mkStep { sact : action; sonfail : onfail }.
 
-(* what the body does after its last statement *)
-Inductive fin := RNil | RErr | RPanic.
+(* what the body does after its last step *)
+Inductive fin := RNil | RErr | RPanic | RGoexit.
 
 (* which error value the body returned *)
 Inductive berr :=
 | BUser             (* an error of its own *)
-| BStmt (k : Z)     (* the error of its k-th statement, as returned by the driver *)
-| BCtx (k : Z).     (* context.Canceled from the k-th statement *)
+| BStmt (k : Z)     (* the driver's error of its k-th step *)
+| BCtx (k : Z)      (* context.Canceled from the k-th step *)
+| BTxDone (k : Z)   (* sql.ErrTxDone from the k-th step *)
+| BNest (k : Z)     (* errCantNestTx *)
+| BSelfC (k : Z)    (* the driver's Commit error, from its own Commit *)
+| BSelfR (k : Z).
 
 (* how the call fn(ctx, tx) ended *)
-Inductive bout := BNil | BErr (b : berr) | BPanic.
+Inductive bout := BNil | BErr (b : berr) | BPanic | BGoexit.
 
-(* the context handed to TransactCtx *)
-Inductive ctxst :=
-| CLive             (* never cancelled *)
-| CDead             (* already cancelled when TransactCtx is called *)
-| CAt (k : Z).      (* cancelled by the body just before its k-th statement (k = number of
-                       statements: after the last one, before the body returns) *)
-
-Record input := mkInput
-  { ibrk : bool;          (* the breaker lets the call through *)
-    ibegin : bool;        (* driver Begin succeeds *)
-    istmts : list stmt;
-    ifin : fin;
-    icommit : bool;       (* driver Commit succeeds *)
-    irollback : bool;     (* driver Rollback succeeds *)
-    ictx : ctxst }.
+(* one transaction: the call and its body *)
+Record script := mkScript
+  { sctxapi : bool;       (* TransactCtx: the body's context is the caller's (Transact: Background) *)
+    sdead : bool;         (* that context is already cancelled when TransactCtx is called *)
+    sbrk : bool;          (* the breaker lets the call through (observed) *)
+    sopen : bool;         (* connProv succeeds *)
+    sconn : Z;            (* the connection that serves Begin (observed) *)
+    ssteps : list step;
+    sfin : fin;
+    sacc : Z }.           (* number of WithAcceptable options of the SqlConn *)
 
 (* ---- errors returned to the caller -------------------------------------- *)
+Inductive ecause :=
+| DrvCommit | DrvRollback     (* the driver's error *)
+| TxDone.                     (* sql.ErrTxDone: the transaction had already ended *)
+
 Inductive err :=
 | ENil
 | EUnavailable                 (* breaker.ErrServiceUnavailable *)
 | ECanceled                    (* ctx.Err() of an already cancelled context *)
+| ENoConn                      (* connProv's error *)
 | EBegin                       (* the driver's Begin error *)
 | EBody (b : berr)             (* exactly the error value the body returned *)
-| ECommit                      (* the driver's Commit error *)
-| ERecover                     (* fmt.Errorf("recover from %#v", p) *)
-| ERecoverRollback             (* fmt.Errorf("recover from %#v, rollback failed: %w", p, e) *)
-| ETxFailedRollback (b : berr). (* fmt.Errorf("transaction failed: %s, rollback failed: %w", err, e) *)
+| ECommit (c : ecause)         (* what tx.Commit() returned *)
+| ERecover (r : option ecause) (* fmt.Errorf("recover from %#v", p) [", rollback failed: %w", e] *)
+| ETxFailed (b : berr) (c : ecause). (* fmt.Errorf("transaction failed: %s, rollback failed: %w", err, e) *)
 
-(* ---- fn(ctx, tx): runs the statements in order ---------------------------- *)
-Definition fin_out (f : fin) : bout :=
-  match f with RNil => BNil | RErr => BErr BUser | RPanic => BPanic end.
+(* how Transact / TransactCtx itself ended *)
+Inductive ret :=
+| RetErr (e : err)     (* returned e ([ENil]: nil) *)
+| RetPanic             (* panicked (the driver's Commit / Rollback did) *)
+| RetNever.            (* never returned: the goroutine exited *)
 
-Fixpoint run_body (k : Z) (ss : list stmt) (f : fin) : list logent * bout :=
-  match ss with
-  | [] => ([], fin_out f)
-  | s :: ss' =>
-    match sres_of s with
-    | SOk => let '(l, o) := run_body (k + 1) ss' f in ((CExec k, true) :: l, o)
-    | SFail =>
-      match sonfail s with
-      | FStop => ([(CExec k, false)], BErr (BStmt k))
-      | FPanic => ([(CExec k, false)], BPanic)
-      | FIgnore => let '(l, o) := run_body (k + 1) ss' f in ((CExec k, false) :: l, o)
-      end
-    | SCtx =>
-      match sonfail s with
-      | FStop => ([], BErr (BCtx k))
-      | FPanic => ([], BPanic)
-      | FIgnore => run_body (k + 1) ss' f
-      end
+Record tresult := mkRes
+  { rruns : Z;               (* how many times the body was invoked *)
+    rbody : option bout;     (* how the body ended, if it ran *)
+    rret : ret;
+    rself : bool }.          (* the body itself called Commit / Rollback on the transaction *)
+
+Inductive tstate :=
+| TIdle
+| TBody (k : Z) (rest : list step) (canc done : bool)  (* in the body, before step k; context cancelled; tx already ended *)
+| TDone (r : tresult).
+
+(* ---- one step of the body ------------------------------------------------- *)
+Inductive sres := SNone | SErr (b : berr) | SPanic.
+
+Definition res_of (k : Z) (o : outcome) : sres :=
+  match o with OOk => SNone | _ => SErr (BStmt k) end.
+
+(* [sees]: the statement is issued with the caller's context (TransactCtx and a ...Ctx method);
+   result, driver calls, rest of the script, context cancelled meanwhile *)
+Definition do_stmt (t : nat) (cn : Z) (k : Z) (m : meth) (sees : bool) (orc : list reply)
+  : sres * list logent * list reply * bool :=
+  match m with
+  | MExec => let '(o, c, l, orc1) := drv t cn (CStmt k KExec) orc in (res_of k o, l, orc1, c)
+  | MQuery => let '(o, c, l, orc1) := drv t cn (CStmt k KQuery) orc in (res_of k o, l, orc1, c)
+  | MPrep =>
+    let '(o, c, l, orc1) := drv t cn (CStmt k KPrepare) orc in
+    match o with
+    | OOk =>
+      (* PrepareContext came back; Stmt.ExecContext with a context that is done by now is refused *)
+      if sees && c then (SErr (BCtx k), l, orc1, c)
+      else let '(o2, c2, l2, orc2) := drv t cn (CStmt k KStmtExec) orc1 in
+           (res_of k o2, l ++ l2, orc2, c || c2)
+    | _ => (SErr (BStmt k), l, orc1, c)
     end
   end.
 
-(* ---- the context ------------------------------------------------------------
-   go-zero begins with db.Begin() (context.Background()), so the transaction is NOT bound
-   to the caller's context: cancelling it neither rolls the transaction back nor affects
-   Begin / Commit / Rollback.  Its only effects are (a) breaker.DoWithAcceptableCtx
-   returns ctx.Err() at once if it is already done, and (b) statements the body issues
-   with it are refused by database/sql before they reach the driver. *)
-Definition is_dead (c : ctxst) : bool := match c with CDead => true | _ => false end.
-Definition ctx_covers (c : ctxst) (k : Z) : bool :=
-  match c with CLive => false | CDead => true | CAt j => j <=? k end.
+(* result, driver calls, rest of the script, cancelled', done', a connection was lost *)
+Definition aout := (sres * list logent * list reply * bool * bool * bool)%type.
 
-Fixpoint apply_ctx (c : ctxst) (k : Z) (ss : list stmt) : list stmt :=
-  match ss with
-  | [] => []
-  | s :: ss' => (if ctx_covers c k then mkStmt SCtx (sonfail s) else s) :: apply_ctx c (k + 1) ss'
+Definition do_selfend (t : nat) (cn : Z) (k : Z) (commit : bool) (canc done : bool)
+  (orc : list reply) : aout :=
+  if done then (SErr (BTxDone k), [], orc, canc, true, false)
+  else
+    let '(o, c, l, orc1) := drv t cn (if commit then CCommit else CRollback) orc in
+    match o with
+    | OOk => (SNone, l, orc1, canc || c, true, false)
+    | OFail => (SErr (if commit then BSelfC k else BSelfR k), l, orc1, canc || c, true, false)
+    | OPanic => (SPanic, l, orc1, canc || c, true, true)
+    end.
+
+Definition do_action (t : nat) (sc : script) (k : Z) (a : action) (canc done : bool)
+  (orc : list reply) : aout :=
+  match a with
+  | AStmt m withctx =>
+    if sctxapi sc && withctx && canc then (SErr (BCtx k), [], orc, canc, done, false)
+    else if done then (SErr (BTxDone k), [], orc, canc, done, false)
+    else let '(r, l, orc1, c) := do_stmt t (sconn sc) k m (sctxapi sc && withctx) orc in
+         (r, l, orc1, canc || c, done, false)
+  | ANest => (SErr (BNest k), [], orc, canc, done, false)
+  | ASelfCommit => do_selfend t (sconn sc) k true canc done orc
+  | ASelfRollback => do_selfend t (sconn sc) k false canc done orc
+  | ACancel => (SNone, [], orc, true, done, false)
+  | ANop => (SNone, [], orc, canc, done, false)
   end.
 
-(* the statements as database/sql treats them *)
-Definition estmts (i : input) : list stmt := apply_ctx (ictx i) 0 (istmts i).
+(* what the body does with the result of a step: None = it goes on *)
+Definition react (r : sres) (f : onfail) : option bout :=
+  match r with
+  | SNone => None
+  | SPanic => Some BPanic
+  | SErr b => match f with FStop => Some (BErr b) | FIgnore => None | FPanic => Some BPanic end
+  end.
+
+Definition fin_out (f : fin) : bout :=
+  match f with RNil => BNil | RErr => BErr BUser | RPanic => BPanic | RGoexit => BGoexit end.
 
 (* ---- the deferred function of transactOnConn ------------------------------
      defer func() {
@@ -133,68 +220,174 @@ Definition estmts (i : input) : list stmt := apply_ctx (ictx i) 0 (istmts i).
          else                           { err = "recover from p" }
        } else if err != nil {
          if e := tx.Rollback(); e != nil { err = "transaction failed: err, rollback failed: %w e" }
+       } else if !returned {            (* [g]: only in a tree that has this guard *)
+         _ = tx.Rollback()
        } else {
          err = tx.Commit()
        }
      }()
-   [o] is how fn ended: a panic is what recover() sees, a returned error is the
-   named result [err]. Result: the driver calls made and the final named result. *)
-Definition deferred (i : input) (o : bout) : list logent * err :=
+   [g] = the source has the "fn never returned" guard (regenerated: GZgen.C14Consts). *)
+Definition end_call_of (g : bool) (o : bout) : call :=
   match o with
-  | BPanic =>
-    if irollback i then ([(CRollback, true)], ERecover)
-    else ([(CRollback, false)], ERecoverRollback)
-  | BErr b =>
-    if irollback i then ([(CRollback, true)], EBody b)
-    else ([(CRollback, false)], ETxFailedRollback b)
-  | BNil =>
-    if icommit i then ([(CCommit, true)], ENil)
-    else ([(CCommit, false)], ECommit)
+  | BNil => CCommit
+  | BGoexit => if g then CRollback else CCommit
+  | _ => CRollback
   end.
 
-Record result := mkResult
-  { rlog : list logent;      (* calls received by the driver, in order *)
-    rruns : Z;               (* how many times the body was invoked *)
-    rbody : option bout;     (* how the body ended, if it ran *)
-    rerr : err }.
+Inductive endres := XOk | XErr (c : ecause) | XPanic.
 
-(* transactOnConn: tx, err = b(conn); if err != nil { return }; defer ...; return fn(ctx, tx) *)
-Definition transact_on_conn (i : input) : result :=
-  if ibegin i then
-    let '(bl, o) := run_body 0 (estmts i) (ifin i) in
-    let '(dl, e) := deferred i o in
-    mkResult ((CBegin, true) :: bl ++ dl) 1 (Some o) e
-  else mkResult [(CBegin, false)] 0 None EBegin.
+Definition try_end (t : nat) (cn : Z) (c : call) (done : bool) (orc : list reply)
+  : endres * list logent * list reply :=
+  if done then (XErr TxDone, [], orc)
+  else
+    let '(o, _, l, orc1) := drv t cn c orc in
+    (match o with
+     | OOk => XOk
+     | OFail => XErr (if is_commit c then DrvCommit else DrvRollback)
+     | OPanic => XPanic
+     end, l, orc1).
 
-(* TransactCtx: db.brk.DoWithAcceptableCtx(ctx, func() error { return transact(...) }, ...) ;
-   transact: conn, err := db.connProv() (cannot fail for NewSqlConnFromDB) *)
-Definition transact (i : input) : result :=
-  if is_dead (ictx i) then mkResult [] 0 None ECanceled      (* select { case <-ctx.Done(): return ctx.Err() *)
-  else if ibrk i then transact_on_conn i
-  else mkResult [] 0 None EUnavailable.
+Definition ret_of (o : bout) (x : endres) : ret :=
+  match x, o with
+  | XPanic, _ => RetPanic
+  | _, BGoexit => RetNever
+  | XOk, BNil => RetErr ENil
+  | XErr c, BNil => RetErr (ECommit c)
+  | XOk, BErr b => RetErr (EBody b)
+  | XErr c, BErr b => RetErr (ETxFailed b c)
+  | XOk, BPanic => RetErr (ERecover None)
+  | XErr c, BPanic => RetErr (ERecover (Some c))
+  end.
 
-(* the call gets past the context check and the breaker *)
-Definition let_through (i : input) : bool := negb (is_dead (ictx i)) && ibrk i.
+Definition is_xpanic (x : endres) : bool := match x with XPanic => true | _ => false end.
 
-(* ---- readable predicates over results -------------------------------------- *)
-Definition is_end (c : call) : bool :=
-  match c with CCommit | CRollback => true | _ => false end.
-Definition is_exec (c : call) : bool :=
-  match c with CExec _ => true | _ => false end.
-Definition is_commit (c : call) : bool :=
-  match c with CCommit => true | _ => false end.
-Definition is_rollback (c : call) : bool :=
-  match c with CRollback => true | _ => false end.
-Definition is_begin (c : call) : bool :=
-  match c with CBegin => true | _ => false end.
+(* state', driver calls, rest of the script, a connection was lost *)
+Definition qout := (tstate * list logent * list reply * bool)%type.
 
-Definition count (p : call -> bool) (l : list logent) : nat :=
-  length (filter (fun x => p (fst x)) l).
+(* the body has ended with [o]: the deferred function runs and the call ends.
+   [rf] = what the caller gets for a body outcome and the result of the end call: [ret_of] for the
+   code as it is; Pinned.v instantiates it with the seeded wrong variants. *)
+Definition finish_with (rf : bout -> endres -> ret) (g : bool) (t : nat) (sc : script) (done : bool)
+  (o : bout) (orc : list reply) : qout :=
+  let '(x, l, orc1) := try_end t (sconn sc) (end_call_of g o) done orc in
+  (TDone (mkRes 1 (Some o) (rf o x) done), l, orc1, is_xpanic x).
 
-(* the error tells the caller that the commit failed / wraps the rollback failure *)
-Definition reports_commit_failure (e : err) : bool :=
-  match e with ECommit => true | _ => false end.
-Definition reports_rollback_failure (e : err) : bool :=
-  match e with ERecoverRollback | ETxFailedRollback _ => true | _ => false end.
-Definition is_nil (e : err) : bool :=
-  match e with ENil => true | _ => false end.
+(* ---- one quantum of one transaction ------------------------------------------
+   TIdle: the call up to the body's first step
+     TransactCtx: select { case <-ctx.Done(): return ctx.Err() }; breaker;
+     transact: conn, err := db.connProv(); transactOnConn: tx, err = b(conn)
+   TBody, steps left: one step and the body's reaction
+   TBody, no step left: the end of the body, the deferred function, the return *)
+Definition tstep_with (rf : bout -> endres -> ret) (g : bool) (t : nat) (sc : script) (st : tstate)
+  (orc : list reply) : qout :=
+  match st with
+  | TDone _ => (st, [], orc, false)
+  | TIdle =>
+    if sdead sc then (TDone (mkRes 0 None (RetErr ECanceled) false), [], orc, false)
+    else if negb (sbrk sc) then (TDone (mkRes 0 None (RetErr EUnavailable) false), [], orc, false)
+    else if negb (sopen sc) then (TDone (mkRes 0 None (RetErr ENoConn) false), [], orc, false)
+    else
+      let '(o, c, l, orc1) := drv t (sconn sc) CBegin orc in
+      match o with
+      | OOk => (TBody 0 (ssteps sc) c false, l, orc1, false)   (* db.Begin() takes no context *)
+      | _ => (TDone (mkRes 0 None (RetErr EBegin) false), l, orc1, false)
+      end
+  | TBody k [] canc done => finish_with rf g t sc done (fin_out (sfin sc)) orc
+  | TBody k (s :: rest) canc done =>
+    let '(r, l, orc1, canc1, done1, leak1) := do_action t sc k (sact s) canc done orc in
+    match react r (sonfail s) with
+    | None => (TBody (k + 1) rest canc1 done1, l, orc1, leak1)
+    | Some o =>
+      let '(st', l2, orc2, leak2) := finish_with rf g t sc done1 o orc1 in
+      (st', l ++ l2, orc2, leak1 || leak2)
+    end
+  end.
+
+(* ---- the world: all transactions, the driver's log, the rest of its script ---- *)
+Record thread := mkThread
+  { tsc : script;
+    tst : tstate;
+    tinuse : Z }.   (* connections checked out of the pools when the call had ended *)
+
+Record world := mkWorld
+  { wthreads : list thread;
+    wlog : list logent;
+    worc : list reply;
+    wleaks : Z }.   (* connections lost to a panicking driver Commit / Rollback *)
+
+Fixpoint set_nth {A} (n : nat) (x : A) (l : list A) : list A :=
+  match l, n with
+  | [], _ => []
+  | _ :: l', O => x :: l'
+  | y :: l', S n' => y :: set_nth n' x l'
+  end.
+
+Definition is_done (st : tstate) : bool := match st with TDone _ => true | _ => false end.
+(* holds a connection: in the body, transaction not ended *)
+Definition holds_conn (th : thread) : bool :=
+  match tst th with TBody _ _ _ false => true | _ => false end.
+Definition count_open (ths : list thread) : Z := Z.of_nat (length (filter holds_conn ths)).
+
+(* [ts] = the quantum function of one transaction ([tstep_with rf g] for the code as it is) *)
+Definition wstep_gen (ts : nat -> script -> tstate -> list reply -> qout) (w : world) (t : nat) : world :=
+  match nth_error (wthreads w) t with
+  | None => w
+  | Some th =>
+    let '(st', l, orc', leak) := ts t (tsc th) (tst th) (worc w) in
+    let leaks' := wleaks w + (if leak then 1 else 0) in
+    let ths1 := set_nth t (mkThread (tsc th) st' (tinuse th)) (wthreads w) in
+    let inuse := if is_done st' && negb (is_done (tst th)) then count_open ths1 + leaks'
+                 else tinuse th in
+    mkWorld (set_nth t (mkThread (tsc th) st' inuse) (wthreads w)) (wlog w ++ l) orc' leaks'
+  end.
+
+Definition wstep_with (rf : bout -> endres -> ret) (g : bool) : world -> nat -> world :=
+  wstep_gen (tstep_with rf g).
+
+Definition init (scs : list script) (orc : list reply) : world :=
+  mkWorld (map (fun sc => mkThread sc TIdle 0) scs) [] orc 0.
+
+Definition run_gen ts (w : world) (sched : list nat) : world := fold_left (wstep_gen ts) sched w.
+Definition exec_gen ts (scs : list script) (sched : list nat) (orc : list reply) : world :=
+  run_gen ts (init scs orc) sched.
+
+Definition run_with rf (g : bool) : world -> list nat -> world := run_gen (tstep_with rf g).
+Definition exec_with rf (g : bool) : list script -> list nat -> list reply -> world :=
+  exec_gen (tstep_with rf g).
+
+(* the code as it is *)
+Definition finish := finish_with ret_of.
+Definition tstep := tstep_with ret_of.
+Definition wstep := wstep_with ret_of.
+Definition run := run_with ret_of.
+Definition exec := exec_with ret_of.
+
+(* the driver calls made on behalf of transaction [t] *)
+Definition proj (t : nat) (l : list logent) : list logent :=
+  filter (fun e => Nat.eqb (etid e) t) l.
+
+(* ---- readable predicates ----------------------------------------------------- *)
+(* the call gets past the context check, the breaker and the connection provider *)
+Definition let_through (sc : script) : bool := negb (sdead sc) && sbrk sc && sopen sc.
+
+Definition ent_end (e : logent) : bool := is_end (ecall e).
+Definition ent_stmt (e : logent) : bool := is_stmt (ecall e).
+Definition ent_begin (e : logent) : bool := is_begin (ecall e).
+Definition count (p : logent -> bool) (l : list logent) : nat := length (filter p l).
+(* a successful Begin; an end call that panicked (database/sql then never gets the connection back) *)
+Definition begun_ok (e : logent) : bool :=
+  ent_begin e && match eout e with OOk => true | _ => false end.
+Definition lostb (e : logent) : bool :=
+  ent_end e && match eout e with OPanic => true | _ => false end.
+Definition on_conn (c : Z) (e : logent) : bool := econn e =? c.
+
+Definition is_self (a : action) : bool :=
+  match a with ASelfCommit | ASelfRollback => true | _ => false end.
+(* the body never ends the transaction behind Transact's back *)
+Definition self_free (sc : script) : bool := forallb (fun s => negb (is_self (sact s))) (ssteps sc).
+
+Definition is_nil_ret (r : ret) : bool := match r with RetErr ENil => true | _ => false end.
+Definition reports_commit_failure (r : ret) : bool :=
+  match r with RetErr (ECommit DrvCommit) => true | _ => false end.
+Definition reports_rollback_failure (r : ret) : bool :=
+  match r with RetErr (ERecover (Some DrvRollback)) | RetErr (ETxFailed _ DrvRollback) => true | _ => false end.
